@@ -147,6 +147,11 @@ def pathOf (done : List Node) : Nat → Node → List Nat
       | none => [n.v]
       | some p => n.v :: pathOf done k p
 
+/-- the part of `l` behind the last occurrence of `v` (all of `l` if `v` does not occur) -/
+def afterLast (v : Nat) : List Nat → List Nat
+  | [] => []
+  | x :: xs => if v ∈ xs then afterLast v xs else if x = v then xs else x :: xs
+
 /-- What `ConnRef::generateStandardPath` reads back.  `search` stores the result as ONE `pathNext`
     pointer per *vertex* ("Correct all the pathNext pointers": `curr->inf->pathNext =
     curr->prevNode->inf`, from the target node back to the start node), and the route is then read by
@@ -157,10 +162,7 @@ def pathOf (done : List Node) : Nat → Node → List Nat
 def routeOfChain : Nat → List Nat → List Nat
   | 0, _ => []
   | _, [] => []
-  | fuel + 1, v :: rest =>
-    -- the part of the chain behind the last occurrence of `v` (= the occurrence nearest the source)
-    let after := (rest.reverse.takeWhile (· ≠ v)).reverse
-    v :: routeOfChain fuel after
+  | fuel + 1, v :: rest => v :: routeOfChain fuel (afterLast v rest)
 
 /-- g of the returned node -/
 def Outcome.cost : Outcome → Option Rat
